@@ -17,7 +17,8 @@ LEVEL = 'exploration'
 RULE = ('per workload (2-4 concurrent requests against one WsgiApplication): recording run, then ALL single preemptions at '
         'every recorded (thread, location, occurrence) x target thread, then random schedules with up to 3 preemptions, then '
         'free-running stress with injected yields; non-trivial = a schedule in which the planned preemption was actually taken; '
-        'distinct by interleaving signature (sequence of switches).')
+        'distinct by interleaving signature (sequence of switches).'
+        ' Workloads: first-use caches, lazy WSDL with 2-3 racing fetches, validation lock, protocol attribute caches, mixed faults, SOAP 1.2, multi-ref requests using the same ids.')
 ASSUMPTIONS = [
     'schedule points are source lines of the modules holding shared mutable state (server/wsgi, interface/wsdl/wsdl11, interface/xml_schema/_base, interface/_base, protocol/_base, util/memo, util/cdict, application, server/_base, and the validate path of protocol/xml); code outside is atomic between points in the systematic mode and only covered by the stress mode',
     'locks created while the application/transport are constructed and the memoizer locks of memoize.registry are replaced by cooperative locks of the same interface',
